@@ -1973,8 +1973,10 @@ class ContractionTree:
             if progbar:
                 pbar.close()
 
-        # invalidate any compiled contractions
-        tree.contraction_cores.clear()
+        # invalidate any compiled contractions, and the explicit contraction
+        # indices, since untouched parents of any reconfigured subtree hold
+        # recipes referring to the index order of the old subtree root
+        tree.reset_contraction_indices()
 
         return tree
 
